@@ -304,6 +304,24 @@ fn small_value() -> BoxedStrategy<RVal> {
     let cfg = GenCfg { depth: 2, wf: true, max_str: 6, nan: true };
     gv::top_value(cfg)
 }
+/// values that a decoder can return and whose text cannot cross the C boundary as a C string (an interior NUL):
+/// every string getter must fail cleanly on them, with a retrievable message
+fn nul_value() -> BoxedStrategy<RVal> {
+    let t = || prop::sample::select(vec!["\0", "a\0b", "\0tail", "head\0", "é\0日"]).prop_map(String::from);
+    prop_oneof![
+        2 => t().prop_map(RVal::Str),
+        2 => t().prop_map(RVal::Uri),
+        2 => t().prop_map(|v| RVal::XStr("Foo".into(), v)),
+        1 => t().prop_map(|v| RVal::XStr(v, "x".into())),
+        2 => t().prop_map(|d| RVal::Ref("a".into(), Some(d))),
+        1 => t().prop_map(|i| RVal::Ref(i, None)),
+        1 => t().prop_map(RVal::Symbol),
+        1 => t().prop_map(|v| RVal::List(vec![RVal::Str(v.clone()), RVal::XStr("Foo".into(), v)])),
+        1 => t().prop_map(|k| RVal::Dict([(k, RVal::Marker), ("ok".to_string(), RVal::num(1.0))].into_iter().collect())),
+    ]
+    .boxed()
+}
+
 fn doc_text() -> BoxedStrategy<Txt> {
     // Zinc / JSON documents: valid ones (from generated values), broken ones, and documents whose
     // error messages carry unusual characters
@@ -316,7 +334,8 @@ fn doc_text() -> BoxedStrategy<Txt> {
             2 => format!("{{\"_kind\":\"number\",\"val\":1,\"unit\":\"{s}\"}}"),
             _ => format!("[\"{s}\", {s}"),
         })),
-        2 => prop::sample::select(vec!["[1,2", "{a:", "ver:\"3.0\"\na\n1,2\n", "@", "{\"_kind\":\"nope\"}", "{\"_kind\":\"\\u0001\"}", "{\"_kind\":\"\\u0000\"}", "\u{1}", "5zz", "{\"_kind\":\"number\",\"val\":1,\"unit\":\"\\u0000\"}"]).prop_map(|s| Txt::S(s.to_string())),
+        2 => prop::sample::select(vec!["[1,2", "{a:", "ver:\"3.0\"\na\n1,2\n", "@", "{\"_kind\":\"nope\"}", "{\"_kind\":\"\\u0001\"}", "{\"_kind\":\"\\u0000\"}", "\u{1}", "5zz", "{\"_kind\":\"number\",\"val\":1,\"unit\":\"\\u0000\"}",
+            "{\"_kind\":\"xstr\",\"type\":\"Foo\",\"val\":\"a\\u0000b\"}", "Foo(\"a\\u0000b\")", "\"a\\u0000b\"", "@a \"x\\u0000y\"", "{\"_kind\":\"uri\",\"val\":\"a\\u0000\"}", "{\"_kind\":\"ref\",\"val\":\"a\",\"dis\":\"\\u0000\"}", "[\"\\u0000\", 23:59:60, 12:00:60.5]", "{\"_kind\":\"time\",\"val\":\"23:59:60.25\"}"]).prop_map(|s| Txt::S(s.to_string())),
         1 => txt(),
     ]
     .boxed()
@@ -342,7 +361,7 @@ pub fn op() -> BoxedStrategy<Op> {
         4 => (slot(), 0u8..4, txt()).prop_map(|(s, k, t)| MakeText(s, k, t)),
         1 => (slot(), txt(), txt()).prop_map(|(s, a, b)| MakeRefDis(s, a, b)),
         1 => (slot(), txt(), txt()).prop_map(|(s, a, b)| MakeXStr(s, a, b)),
-        2 => (slot(), 0u32..26, 0u32..62, 0u32..62, prop::option::of(0u32..1100)).prop_map(|(s, h, m, sec, ms)| MakeTime(s, h, m, sec, ms)),
+        2 => (slot(), 0u32..26, 0u32..62, prop_oneof![6 => 0u32..62, 1 => Just(59u32)], prop::option::of(prop_oneof![5 => 0u32..1100, 1 => 1000u32..2100])).prop_map(|(s, h, m, sec, ms)| MakeTime(s, h, m, sec, ms)),
         2 => (slot(), 0i32..=9999, 0u32..14, 0u32..33).prop_map(|(s, y, m, d)| MakeDate(s, y, m, d)),
         2 => (slot(), slot(), slot()).prop_map(|(s, d, t)| MakeUtcDt(s, d, t)),
         2 => (slot(), slot(), slot(), txt()).prop_map(|(s, d, t, z)| MakeTzDt(s, d, t, z)),
@@ -350,6 +369,7 @@ pub fn op() -> BoxedStrategy<Op> {
         3 => (slot(), doc_text()).prop_map(|(s, t)| FromZinc(s, t)),
         3 => (slot(), doc_text()).prop_map(|(s, t)| FromJson(s, t)),
         6 => (slot(), small_value()).prop_map(|(s, v)| Put(s, v)),
+        1 => (slot(), nul_value()).prop_map(|(s, v)| Put(s, v)),
         4 => (slot(), 0u8..18).prop_map(|(s, k)| Is(s, k)),
         8 => (slot(), 0u8..GETTERS as u8).prop_map(|(s, g)| Get(s, g)),
         2 => slot().prop_map(ListLen),
